@@ -262,6 +262,14 @@ impl Prop for C18 {
         let threads = *rng.pick(&[1usize, 2, 3, 8, 16, 64]);
         let delay_seed = rng.below(1_000_000);
         let mut args = cfg.to_cli_args();
+        // log verbosity must not change what happens to the files
+        // (debug output is large: one batch in eight; trace output is not used, it renders every search)
+        match rng.below(8) {
+            0 => args.push("-v".into()),
+            1 => args.extend(["--log-level".to_string(), "DEBUG".to_string()]),
+            2 => args.extend(["--log-level".to_string(), "ERROR".to_string()]),
+            _ => {}
+        }
         let mut dirs = vec![];
         collect_dirs(&batch_root, &mut dirs);
         let form = rng.below(3);
